@@ -75,6 +75,8 @@ struct Header {
     uint64_t sig_count = 0;
     size_t total_size = 0;          // lead_size + header_length
     size_t unused_trailing = 0;
+    int stage = 0;                  // how far parse() got: 1 lead+checksum, 2 data digest+flags, 3 compression type, 4 optional elements, 5 index size,
+                                    // 6 chunk hash type, 7 count, 8 all entries, 9 signature count (fields up to that stage are as read from the bytes)
     // verdicts
     bool checksum_ok = false;
     bool meta_ok = false; std::string meta_reason;    // count == entries, index consumed exactly, no overflow
@@ -126,15 +128,16 @@ static inline ParseResult parse(const Bytes &f) {
         h.checksum_ok = digest((int)h.hash_type, m) == h.header_digest;
     }
     if (!h.checksum_ok) return bad("header checksum mismatch");
+    h.stage = 1;
     const uint8_t *H = f.data() + h.lead_size; size_t hl = h.header_length; size_t q = 0;
     if (hl - q < ds) return bad("short data digest");
     h.data_digest.assign(H + q, H + q + ds); q += ds;
     c = ci_get(H + q, hl - q); if (c.status != CiResult::OK) return bad("flags integer");
-    h.flags = (uint64_t)c.value; q += c.length;
+    h.flags = (uint64_t)c.value; q += c.length; h.stage = 2;
     if (h.flags & 1) return bad("streams unsupported");
     if (h.flags & ~(uint64_t)7) return bad("unknown flag");
     c = ci_get(H + q, hl - q); if (c.status != CiResult::OK) return bad("compression type integer");
-    h.comp_type = (uint64_t)c.value; q += c.length;
+    h.comp_type = (uint64_t)c.value; q += c.length; h.stage = 3;
     if (h.comp_type != COMP_NONE && h.comp_type != COMP_ZSTD) return bad("unknown compression type");
     if (h.flags & 2) {
         c = ci_get(H + q, hl - q); if (c.status != CiResult::OK) return bad("optional element count");
@@ -150,16 +153,17 @@ static inline ParseResult parse(const Bytes &f) {
             h.opt.push_back(e);
         }
     }
+    h.stage = 4;
     c = ci_get(H + q, hl - q); if (c.status != CiResult::OK) return bad("index size integer");
-    h.index_size = (uint64_t)c.value; q += c.length;
+    h.index_size = (uint64_t)c.value; q += c.length; h.stage = 5;
     if (h.index_size > hl - q) return bad("index past end of header");
     size_t istart = q, iend = q + h.index_size;
     c = ci_get(H + q, iend - q); if (c.status != CiResult::OK) return bad("chunk hash type integer");
-    h.chunk_hash_type = (uint64_t)c.value; q += c.length;
+    h.chunk_hash_type = (uint64_t)c.value; q += c.length; h.stage = 6;
     if (digest_size(h.chunk_hash_type) < 0) return bad("unknown chunk hash type");
     size_t cds = digest_size(h.chunk_hash_type);
     c = ci_get(H + q, iend - q); if (c.status != CiResult::OK) return bad("chunk count integer");
-    h.count = (uint64_t)c.value; q += c.length;
+    h.count = (uint64_t)c.value; q += c.length; h.stage = 7;
     u128 run = 0; bool overflow = false;
     while (q < iend) {
         Entry e;
@@ -177,9 +181,9 @@ static inline ParseResult parse(const Bytes &f) {
         h.entries.push_back(e);
     }
     (void)istart;
-    h.data_length = run;
+    h.data_length = run; h.stage = 8;
     c = ci_get(H + q, hl - q); if (c.status != CiResult::OK) return bad("signature count integer");
-    h.sig_count = (uint64_t)c.value; q += c.length;
+    h.sig_count = (uint64_t)c.value; q += c.length; h.stage = 9;
     if (h.sig_count > 0) return bad("signatures unsupported");
     h.unused_trailing = hl - q;
     h.meta_ok = true;
